@@ -341,3 +341,197 @@ fn subscribe_replay() {
     }
     out.flush().unwrap();
 }
+
+// ------------------------------------------------------------------------------------------------
+// C20: behaviours of spec/Rib/Rib.tla replayed through the real TableManager with a readable kernel handle; after every
+// operation the request stream is drained and folded: fib[prefix] = next hops of the last Apply (empty = withdrawn),
+// reg[nexthop] = registrations - unregistrations.
+//
+// Input (VERIF_IN ends ".fib.in"):
+//   sess <name> <addr> <ebgp 0|1> <rtr>          prefix <name> <cidr>          nh <name> <addr>
+//   cls <name> <lp> <origin> <clen> <oid> <aspath: t:a,b;t:a> <comm: a,b | ->
+//   init
+//   insert <sess> <p> <rid> <cls> <nh> <filt 0|1> | remove <sess> <p> <rid> | drop|markstale|dropstale|markllgr|dropllgr <sess...>
+//   nhflip <nh> <up 0|1>
+// Output: per op {"fib":{p:[nh..]},"reg":{nh:n},"neg":bool}
+
+const FIB_REJ: u32 = (65000 << 16) | 777;
+
+fn fib_attrs(t: &[&str], filt: bool) -> Arc<Vec<packet::Attribute>> {
+    let (lp, origin, clen, oid): (u32, u32, u32, u32) = (t[2].parse().unwrap(), t[3].parse().unwrap(), t[4].parse().unwrap(), t[5].parse().unwrap());
+    let mut v = vec![packet::Attribute::new_with_value(packet::Attribute::ORIGIN, origin).unwrap()];
+    let mut bin = Vec::new();
+    for seg in t[6].split(';') {
+        let (ty, asns) = seg.split_once(':').unwrap();
+        let asns: Vec<u32> = asns.split(',').filter(|x| !x.is_empty()).map(|x| x.parse().unwrap()).collect();
+        bin.push(ty.parse::<u8>().unwrap());
+        bin.push(asns.len() as u8);
+        for a in asns {
+            bin.extend_from_slice(&a.to_be_bytes());
+        }
+    }
+    v.push(packet::Attribute::new_with_bin(packet::Attribute::AS_PATH, bin).unwrap());
+    v.push(packet::Attribute::new_with_value(packet::Attribute::LOCAL_PREF, lp).unwrap());
+    let mut comm: Vec<u32> = if t[7] == "-" { vec![] } else { t[7].split(',').map(|x| x.parse().unwrap()).collect() };
+    if filt {
+        comm.push(FIB_REJ);
+    }
+    if !comm.is_empty() {
+        let mut b = Vec::new();
+        for c in comm {
+            b.extend_from_slice(&c.to_be_bytes());
+        }
+        v.push(packet::Attribute::new_with_bin(packet::Attribute::COMMUNITY, b).unwrap());
+    }
+    if oid != 0 {
+        v.push(packet::Attribute::new_with_value(packet::Attribute::ORIGINATOR_ID, oid).unwrap());
+    }
+    if clen > 0 {
+        let mut b = Vec::new();
+        for i in 0..clen {
+            b.extend_from_slice(&(0x0a0a0a00u32 + i).to_be_bytes());
+        }
+        v.push(packet::Attribute::new_with_bin(packet::Attribute::CLUSTER_LIST, b).unwrap());
+    }
+    Arc::new(v)
+}
+
+#[test]
+fn fib_replay() {
+    let Ok(inp) = std::env::var("VERIF_IN") else {
+        return;
+    };
+    if !inp.ends_with(".fib.in") {
+        return;
+    }
+    let outp = std::env::var("VERIF_OUT").expect("VERIF_OUT");
+    let text = std::fs::read_to_string(&inp).expect("read VERIF_IN");
+    let mut out = std::io::BufWriter::new(std::fs::File::create(&outp).expect("create VERIF_OUT"));
+    let mut sess_cfg: Vec<(String, IpAddr, bool, u32)> = Vec::new();
+    let mut prefixes: Vec<(String, packet::Nlri)> = Vec::new();
+    let mut nhs: Vec<(String, IpAddr)> = Vec::new();
+    let mut classes: HashMap<(String, bool), Arc<Vec<packet::Attribute>>> = HashMap::new();
+    let mut tm: Arc<TableManager> = Arc::new(TableManager::new(2));
+    let mut rx: Option<kernel::verif::VerifReceiver> = None;
+    let mut sources: HashMap<String, Arc<table::Source>> = HashMap::new();
+    let mut fib: HashMap<String, Vec<String>> = HashMap::new();
+    let mut reg: HashMap<String, i64> = HashMap::new();
+    for line in text.lines() {
+        let t: Vec<&str> = line.split_whitespace().collect();
+        if t.is_empty() {
+            continue;
+        }
+        let peer_addr = |name: &str| sess_cfg.iter().find(|s| s.0 == name).unwrap().1;
+        match t[0] {
+            "sess" => {
+                sess_cfg.push((t[1].to_string(), t[2].parse().unwrap(), t[3] == "1", t[4].parse().unwrap()));
+                continue;
+            }
+            "prefix" => {
+                prefixes.push((t[1].to_string(), t[2].parse().unwrap()));
+                continue;
+            }
+            "nh" => {
+                nhs.push((t[1].to_string(), t[2].parse().unwrap()));
+                continue;
+            }
+            "cls" => {
+                classes.insert((t[1].to_string(), false), fib_attrs(&t, false));
+                classes.insert((t[1].to_string(), true), fib_attrs(&t, true));
+                continue;
+            }
+            "init" => {
+                tm = Arc::new(TableManager::new(2));
+                let mut pt = table::PolicyTable::new();
+                pt.add_defined_set(table::DefinedSetConfig::Community { name: "rej".into(), patterns: vec!["65000:777".into()] }).unwrap();
+                pt.add_statement("s", vec![table::ConditionConfig::CommunitySet("rej".into(), table::MatchOption::Any)], Some(table::Disposition::Reject), table::Actions::default()).unwrap();
+                pt.add_policy("p", vec!["s".into()]).unwrap();
+                let (_, a) = pt.add_assignment("global", table::PolicyDirection::Import, table::Disposition::Accept, vec!["p".into()]).unwrap();
+                tm.import_policy.store(Some(a));
+                let (h, r) = kernel::verif::handle();
+                tm.kernel_handle.store(Some(Arc::new(h)));
+                rx = Some(r);
+                sources.clear();
+                for (name, addr, ebgp, rtr) in &sess_cfg {
+                    let (role, rasn) = if *ebgp { (table::PeerRole::Ebgp, 65001) } else { (table::PeerRole::Ibgp, 65000) };
+                    sources.insert(name.clone(), Arc::new(table::Source::new(*addr, IpAddr::V4(Ipv4Addr::new(10, 0, 0, 254)), rasn, 65000, Ipv4Addr::from(*rtr), role)));
+                }
+                fib.clear();
+                reg.clear();
+                writeln!(out, "{{\"init\":true}}").unwrap();
+                continue;
+            }
+            _ => {}
+        }
+        let fam = Family::IPV4;
+        match t[0] {
+            "insert" => {
+                let src = sources[t[1]].clone();
+                let net = packet::PathNlri { path_id: t[3].parse().unwrap(), nlri: prefixes.iter().find(|p| p.0 == t[2]).unwrap().1.clone() };
+                let nh = nhs.iter().find(|n| n.0 == t[5]).unwrap().1;
+                let nh = match nh {
+                    IpAddr::V4(a) => bgp::Nexthop::V4(a),
+                    IpAddr::V6(a) => bgp::Nexthop::V6(a),
+                };
+                let attr = classes[&(t[4].to_string(), t[6] == "1")].clone();
+                tm.insert_route(src, fam, net, Some(nh), attr, None, 0);
+            }
+            "remove" => {
+                let src = sources[t[1]].clone();
+                let net = packet::PathNlri { path_id: t[3].parse().unwrap(), nlri: prefixes.iter().find(|p| p.0 == t[2]).unwrap().1.clone() };
+                tm.remove_route(src, fam, net, None, 0);
+            }
+            "drop" => tm.unregister_peer(peer_addr(t[1]), &[fam], &[]),
+            "markstale" => tm.unregister_peer(peer_addr(t[1]), &[], &[fam]),
+            "dropstale" => tm.drop_stale_families(peer_addr(t[1]), &[fam]),
+            "markllgr" => tm.mark_llgr_stale(peer_addr(t[1]), &[fam]),
+            "dropllgr" => tm.drop_llgr_stale_families(peer_addr(t[1]), &[fam]),
+            "nhflip" => {
+                let nh = nhs.iter().find(|n| n.0 == t[1]).unwrap().1;
+                tm.update_nexthop_validity(nh, t[2] == "1");
+            }
+            x => panic!("harness: op {x}"),
+        }
+        let mut neg = false;
+        while let Some(r) = rx.as_mut().unwrap().try_recv() {
+            match r {
+                kernel::verif::VerifRequest::Apply(c) => {
+                    let p = prefixes.iter().find(|p| p.1 == c.net).map(|p| p.0.clone()).unwrap_or_else(|| "?".into());
+                    let mut v: Vec<String> = c.nexthops.iter().map(|n| nhs.iter().find(|x| x.1 == n.addr()).map(|x| x.0.clone()).unwrap_or_else(|| "?".into())).collect();
+                    v.sort();
+                    v.dedup();
+                    fib.insert(p, v);
+                }
+                kernel::verif::VerifRequest::RegisterNexthop(a) => {
+                    *reg.entry(nhs.iter().find(|x| x.1 == a).map(|x| x.0.clone()).unwrap_or_else(|| "?".into())).or_insert(0) += 1;
+                }
+                kernel::verif::VerifRequest::UnregisterNexthop(a) => {
+                    let e = reg.entry(nhs.iter().find(|x| x.1 == a).map(|x| x.0.clone()).unwrap_or_else(|| "?".into())).or_insert(0);
+                    *e -= 1;
+                    if *e < 0 {
+                        neg = true;
+                    }
+                }
+                kernel::verif::VerifRequest::Other => {}
+            }
+        }
+        let mut s = String::from("{\"fib\":{");
+        for (i, (p, _)) in prefixes.iter().enumerate() {
+            if i > 0 {
+                s.push(',');
+            }
+            let v = fib.get(p).cloned().unwrap_or_default();
+            s.push_str(&format!("\"{}\":[{}]", p, v.iter().map(|x| format!("\"{}\"", x)).collect::<Vec<_>>().join(",")));
+        }
+        s.push_str("},\"reg\":{");
+        for (i, (n, _)) in nhs.iter().enumerate() {
+            if i > 0 {
+                s.push(',');
+            }
+            s.push_str(&format!("\"{}\":{}", n, reg.get(n).copied().unwrap_or(0)));
+        }
+        s.push_str(&format!("}},\"neg\":{}}}", neg));
+        writeln!(out, "{}", s).unwrap();
+    }
+    out.flush().unwrap();
+}
